@@ -13,11 +13,12 @@ package service
 
 //@ property C02 roots (*service).processPublish, (*service).processIncoming, (*service).processAcked, (*service).onPublish
 //@ property C12 roots (*service).publish, (*service).processIncoming, (*service).processAcked
-//@ property C09 roots (*service).processIncoming, (*service).stop, (*github.com/mdzio/go-mqtt/sessions.Session).Init, (*github.com/mdzio/go-mqtt/sessions.Session).Update
+//@ property C09 roots (*service).processIncoming, (*service).peekMessageSize, (*service).stop, (*github.com/mdzio/go-mqtt/sessions.Session).Init, (*github.com/mdzio/go-mqtt/sessions.Session).Update
 //@ property C10 roots (*Server).getSession, (*service).stop, (*github.com/mdzio/go-mqtt/sessions.Manager).Get, (*github.com/mdzio/go-mqtt/sessions.Manager).Del, (*github.com/mdzio/go-mqtt/sessions.Session).AddTopic, (*github.com/mdzio/go-mqtt/sessions.Session).RemoveTopic
 //@ property C06 roots github.com/mdzio/go-mqtt/topics.nextTopicLevel, (*github.com/mdzio/go-mqtt/topics.Manager).Subscribe, (*github.com/mdzio/go-mqtt/topics.Manager).Unsubscribe, (*github.com/mdzio/go-mqtt/topics.Manager).Subscribers
 //@ property C07 roots (*service).processUnsubscribe, (*github.com/mdzio/go-mqtt/message.SubackMessage).AddReturnCodes, (*github.com/mdzio/go-mqtt/message.SubackMessage).AddReturnCode, (*github.com/mdzio/go-mqtt/message.SubscribeMessage).Decode, (*github.com/mdzio/go-mqtt/message.UnsubscribeMessage).Decode, (*github.com/mdzio/go-mqtt/message.SubackMessage).Encode, (*github.com/mdzio/go-mqtt/topics.Manager).Subscribe, (*github.com/mdzio/go-mqtt/topics.Manager).Unsubscribe
 //@ property C11 roots (*Server).handleConnection, (*Server).getSession, (*github.com/mdzio/go-mqtt/message.ConnectMessage).Decode, (*github.com/mdzio/go-mqtt/message.ConnectMessage).decodeMessage, (*github.com/mdzio/go-mqtt/message.ConnectMessage).validClientID, (*github.com/mdzio/go-mqtt/message.ConnackMessage).Encode
+//@ property C05 roots getMessageBuffer, getConnectMessage, (*service).peekMessageSize, (*service).peekMessage, (*github.com/mdzio/go-mqtt/message.ConnectMessage).Decode
 //@ property C19 roots (*service).processIncoming, (*service).receiver, (timeoutReader).Read
 //@ property C01 roots (*service).onPublish
 //@ property C17 roots (*service).writeMessage, (*stat).increment, (*buffer).WriteTo, (*buffer).ReadPeek, (*buffer).ReadCommit, (*buffer).ReadFrom
@@ -790,3 +791,38 @@ func vspecCovered(x int64, start int64, c int64, size int64) bool {
 //@   ensures[C05:size] err == nil ==> 2 <= len(buf) && len(buf) <= 268435460
 //@   ensures[C11:errtype] !typeis(err, message.ConnackCode)
 //@   modifies nothing
+
+// ---------------------------------------------------------------- packets after CONNECT (C05, C09)
+// The consumer side of the incoming ring as the processor goroutine uses it.
+//@ define vdefIn(svc)
+//@   is svc.in != nil ==> vdefRingB(svc.in) && vdefStream(svc.in) && !held(ifaceval(svc.in.ccond.L, *sync.Mutex))
+
+// peekMessageSize: type and total size of the next packet from at most 5 peeked bytes. Whatever bytes are in the
+// ring: no index out of range, the size is that of an MQTT packet (at most 4 length bytes), and an error is reported
+// only if the ring reported one (end of stream is never invented while packets are still buffered) or the length
+// field is malformed.
+//@ func (*service).peekMessageSize
+//@   results mtype, total, err
+//@   nooverflow
+//@   requires vdefIn(svc)
+//@   rely modifies svc.in.pseq.cursor, svc.in.pseq.gate, svc.in.done, svc.in.pwait, elems(svc.in.buf)
+//@   rely ensures svc.in.pseq.cursor >= old(svc.in.pseq.cursor) && svc.in.pseq.cursor <= svc.in.pseq.gate+svc.in.size && svc.in.pseq.gate >= old(svc.in.pseq.gate) && svc.in.pseq.gate <= svc.in.cseq.cursor && (old(svc.in.done) == 1 ==> svc.in.done == 1)
+//@   rely ensures vdefStream(svc.in)
+//@   loop 1 invariant svc.in != nil && vdefRing(svc.in) && vdefStream(svc.in) && heldsame() && 2 <= cnt && cnt <= 6 && svc.in.cseq.cursor == old(svc.in.cseq.cursor) && gfield(svc.in, "rwfail") == old(gfield(svc.in, "rwfail"))
+//@   loop 1 invariant[cont] forall(1, cnt-1, func(i int) bool { return byte(gh_stream[int(svc.in.cseq.cursor)+i]) >= 128 })
+//@   ensures[C05:size] err == nil ==> 2 <= total && total <= 268435460
+//@   atcall fmt.Errorf assumes !isErr(result, io.EOF)
+//@   ensures[C09:no-invented-eof] isErr(err, io.EOF) && old(svc.in) != nil ==> gfield(svc.in, "rwfail") == old(gfield(svc.in, "rwfail"))+1
+//@   modifies heap("F.service.buffer.tmp"), allelems(byte), heap("GF.clock"), heap("GF.lockedAt"), heap("GF.readAt"), heap("GF.doneAt"), heap("GF.doneSeen"), heap("GF.rwfail")
+
+// peekMessage: the packet of the announced size, decoded in place from the ring (bytes stay uncommitted).
+//@ func (*service).peekMessage
+//@   results msg, n, err
+//@   nooverflow
+//@   requires vdefIn(svc) && 0 <= total && total <= 268435460
+//@   rely modifies svc.in.pseq.cursor, svc.in.pseq.gate, svc.in.done, svc.in.pwait, elems(svc.in.buf)
+//@   rely ensures svc.in.pseq.cursor >= old(svc.in.pseq.cursor) && svc.in.pseq.cursor <= svc.in.pseq.gate+svc.in.size && svc.in.pseq.gate >= old(svc.in.pseq.gate) && svc.in.pseq.gate <= svc.in.cseq.cursor && (old(svc.in.done) == 1 ==> svc.in.done == 1)
+//@   rely ensures vdefStream(svc.in)
+//@   loop 1 invariant svc.in != nil && vdefRing(svc.in) && vdefStream(svc.in) && heldsame() && svc.in.cseq.cursor == old(svc.in.cseq.cursor) && gfield(svc.in, "rwfail") >= old(gfield(svc.in, "rwfail"))
+//@   ensures[C05:decoded] err == nil ==> msg != nil && 0 <= n
+//@   modifies heap("F.service.buffer.tmp"), allelems(byte), heap("GF.clock"), heap("GF.lockedAt"), heap("GF.readAt"), heap("GF.doneAt"), heap("GF.doneSeen"), heap("GF.rwfail"), heap("GF.decarr"), heap("GF.decoff"), heap("GF.declen")
